@@ -1,5 +1,7 @@
 // C15: shared between the generated list TUs and the harness.
 #pragma once
+#include <string>
+#include <memory>
 #include <vector>
 #include <cassert>
 #include <cstddef>
@@ -289,6 +291,67 @@ namespace c15
         return (int)f.payload.size();
     }
 
+    // other call shapes: no argument and no result; a move-only result; five arguments of mixed value categories
+    struct MiscIO
+    {
+        int calls[3] = { 0, 0, 0 };
+        int arch[3] = { -1, -1, -1 };
+        long got_unique = 0, want_unique = 0;
+        long got_many = 0, want_many = 0;
+        bool many_ok = true; // argument identities/categories as seen by the functor
+    };
+    struct ProbeVoid
+    {
+        MiscIO* io;
+        template <class A>
+        __attribute__((noinline)) void operator()(A) const
+        {
+            io->calls[0]++;
+            io->arch[0] = arch_id<A>::value;
+        }
+    };
+    struct ProbeUnique
+    {
+        MiscIO* io;
+        template <class A>
+        __attribute__((noinline)) std::unique_ptr<long> operator()(A, std::unique_ptr<long> in) const
+        {
+            io->calls[1]++;
+            io->arch[1] = arch_id<A>::value;
+            io->want_unique = *in * 3 + arch_id<A>::value;
+            return std::unique_ptr<long>(new long(io->want_unique));
+        }
+    };
+    struct ProbeMany
+    {
+        MiscIO* io;
+        const std::string* expect_s;
+        double* expect_d;
+        template <class A>
+        __attribute__((noinline)) long operator()(A, int a, const std::string& s, double& d, std::vector<int>&& v, const char* z) const
+        {
+            io->calls[2]++;
+            io->arch[2] = arch_id<A>::value;
+            io->many_ok = (&s == expect_s) && (&d == expect_d) && v.size() == 3 && z[0] == 'z';
+            d += 1.5;
+            std::vector<int> taken(std::move(v));
+            io->want_many = a + (long)s.size() + (long)taken.size() + arch_id<A>::value;
+            return io->want_many;
+        }
+    };
+    template <class L, bool D = false>
+    void run_misc(MiscIO& io, long seed)
+    {
+        disp<L, D>::make(ProbeVoid { &io })();
+        std::unique_ptr<long> r = disp<L, D>::make(ProbeUnique { &io })(std::unique_ptr<long>(new long(seed)));
+        io.got_unique = r ? *r : -1;
+        const std::string s(5 + (size_t)(seed & 7), 'x');
+        double d = 2.0;
+        std::vector<int> v { 1, 2, 3 };
+        io.got_many = disp<L, D>::make(ProbeMany { &io, &s, &d })((int)(seed & 1023), s, d, std::move(v), "z");
+        io.many_ok = io.many_ok && d == 3.5 && v.empty();
+    }
+
     template <class L>
     struct list_ids;
     template <class... A>
@@ -311,19 +374,20 @@ namespace c15
         void (*ref)(DispIO&);
         void (*twice)(DispIO&, DispIO&);
         int (*owning)(DispIO&, DispIO&, long*);
+        void (*misc)(MiscIO&, long);
     };
 
     template <class L>
     ListEntry make_entry(const char* kind)
     {
-        return ListEntry { kind, list_ids<L>::n, list_ids<L>::get(), &run_val<L>, &run_ref<L>, &run_twice<L>, &run_owning<L> };
+        return ListEntry { kind, list_ids<L>::n, list_ids<L>::get(), &run_val<L>, &run_ref<L>, &run_twice<L>, &run_owning<L>, &run_misc<L> };
     }
 
     // the default list: xsimd::dispatch(f) without a template argument must walk supported_architectures
     inline ListEntry make_default_entry(const char* kind)
     {
         using L = xsimd::supported_architectures;
-        return ListEntry { kind, list_ids<L>::n, list_ids<L>::get(), &run_val<L, true>, &run_ref<L, true>, &run_twice<L, true>, &run_owning<L, true> };
+        return ListEntry { kind, list_ids<L>::n, list_ids<L>::get(), &run_val<L, true>, &run_ref<L, true>, &run_twice<L, true>, &run_owning<L, true>, &run_misc<L, true> };
     }
 
     template <class C, class P>
